@@ -1664,8 +1664,8 @@ func (env *c11Env) genProto(r *vf.Rand, kind string) c11Conf {
 			p.FwdH = []string{"X-F1", "X-F2"}
 		}
 
-		if r.Chance(22) {
-			p.FwdC = []string{"ck1"}
+		if r.Chance(26) {
+			p.FwdC = vf.Pick(r, [][]string{{"ck1"}, {"ck1"}, {"ck1", "ck2"}})
 		}
 	}
 
@@ -1984,6 +1984,10 @@ func c11GenReq(r *vf.Rand) c11Req {
 		q.Cookies = append(q.Cookies, c11KV{K: "ck1", V: vf.Pick(r, []string{"c1", "c2"})})
 	}
 
+	if r.Chance(40) {
+		q.Cookies = append(q.Cookies, c11KV{K: "ck2", V: vf.Pick(r, []string{"d1", "d22"})})
+	}
+
 	q.Outputs = append(q.Outputs, c11KV{K: "foo", V: vf.Pick(r, []string{"o1", "o22"})})
 
 	if r.Chance(70) {
@@ -2005,6 +2009,38 @@ func c11SetKV(m []c11KV, k, v string) []c11KV {
 	}
 
 	return append(out, c11KV{K: k, V: v})
+}
+
+func c11DelKV(m []c11KV, k string) []c11KV {
+	var out []c11KV
+
+	for _, kv := range m {
+		if kv.K != k {
+			out = append(out, kv)
+		}
+	}
+
+	return out
+}
+
+// Two requests for a key derivation that writes name1 value1 name2 value2 back to back, where a component is
+// optional.  "absorb": the second component is ABSENT in one request and the first value ends with its name
+// and the value it has in the other request (equal pre-images only if an absent component is dropped).
+// "shift": both present, name2 moved across the boundary (equal pre-images in the code as it is: C11-F4).
+func c11ShiftOptional(r *vf.Rand, m []c11KV, n1, n2 string, pool []string) (q1, q2 []c11KV, rel string) {
+	a, b, c := vf.Pick(r, pool), vf.Pick(r, pool), vf.Pick(r, pool)
+
+	if r.Chance(60) {
+		q1 = c11SetKV(c11SetKV(m, n1, a), n2, b)
+		q2 = c11DelKV(c11SetKV(m, n1, a+n2+b), n2)
+
+		return q1, q2, "absorb"
+	}
+
+	q1 = c11SetKV(c11SetKV(m, n1, a+n2+b), n2, c)
+	q2 = c11SetKV(c11SetKV(m, n1, a), n2, b+n2+c)
+
+	return q1, q2, "shift"
 }
 
 func c11Other(r *vf.Rand, pool []string, cur string) string {
@@ -2095,6 +2131,7 @@ func (env *c11Env) gen(r *vf.Rand) c11Case {
 	}
 
 	kindOf := func(inst int) string { return c.Protos[c.Insts[inst].Proto].Kind }
+	effOf := func(inst int) c11Conf { return c11Effective(c.Protos[c.Insts[inst].Proto], c.Insts[inst].Over) }
 
 	n := 2 + r.Intn(4)
 	if len(c.Protos) > 2 {
@@ -2131,6 +2168,25 @@ func (env *c11Env) gen(r *vf.Rand) c11Case {
 			q1.Headers = c11SetKV(c11SetKV(from.Req.Headers, "X-V1", a), "X-V2", "v2"+b)
 			q2.Headers = c11SetKV(c11SetKV(from.Req.Headers, "X-V1", a+"v2"), "X-V2", b)
 			c.Steps = append(c.Steps, c11Step{Inst: from.Inst, Req: q1, Rel: "shift-a"}, c11Step{Inst: from.Inst, Req: q2, Rel: "shift-b"})
+		case x < 70 && (kindOf(from.Inst) == "ctx" || kindOf(from.Inst) == "gen") && len(effOf(from.Inst).FwdH) >= 2:
+			names := effOf(from.Inst).FwdH
+			q1, q2, rel := c11ShiftOptional(r, from.Req.Headers, names[0], names[1], c11HVals)
+			r1, r2 := from.Req, from.Req
+			r1.Headers, r2.Headers = q1, q2
+			c.Steps = append(c.Steps, c11Step{Inst: from.Inst, Req: r1, Rel: rel + ":fwdh-a"}, c11Step{Inst: from.Inst, Req: r2, Rel: rel + ":fwdh-b"})
+		case x < 76 && (kindOf(from.Inst) == "ctx" || kindOf(from.Inst) == "gen") && len(effOf(from.Inst).FwdC) >= 2:
+			names := effOf(from.Inst).FwdC
+			q1, q2, rel := c11ShiftOptional(r, from.Req.Cookies, names[0], names[1], []string{"c1", "c2", "d22"})
+			r1, r2 := from.Req, from.Req
+			r1.Cookies, r2.Cookies = q1, q2
+			c.Steps = append(c.Steps, c11Step{Inst: from.Inst, Req: r1, Rel: rel + ":fwdc-a"}, c11Step{Inst: from.Inst, Req: r2, Rel: rel + ":fwdc-b"})
+		case x < 82 && c.Insts[from.Inst].Proto == 0 && (kind == "remote" || kind == "ctx") && len(c.Protos[0].Values) >= 2:
+			// the second value is absent and the first ends with its name and what it had been: v1 = a, v2 = b  vs  v1 = a+"v2"+b, no v2
+			a, b := vf.Pick(r, c11HVals), vf.Pick(r, c11HVals)
+			q1, q2 := from.Req, from.Req
+			q1.Headers = c11SetKV(c11SetKV(from.Req.Headers, "X-V1", a), "X-V2", b)
+			q2.Headers = c11DelKV(c11SetKV(from.Req.Headers, "X-V1", a+"v2"+b), "X-V2")
+			c.Steps = append(c.Steps, c11Step{Inst: from.Inst, Req: q1, Rel: "absorb:values-a"}, c11Step{Inst: from.Inst, Req: q2, Rel: "absorb:values-b"})
 		default:
 			q, what := c11Vary(r, from.Req, kindOf(from.Inst))
 			c.Steps = append(c.Steps, c11Step{Inst: from.Inst, Req: q, Rel: what})
@@ -2242,6 +2298,15 @@ func (env *c11Env) corpus() []c11Case {
 	qA.Outputs = []c11KV{{K: "foo", V: "A"}}
 	qB.Outputs = []c11KV{{K: "foo", V: "B"}}
 
+	fwd2 := fwd
+	fwd2.ID, fwd2.FwdH = "cx2", []string{"X-F1", "X-F2"}
+
+	genFwd2 := c11Conf{Kind: "gen", ID: "ga2", TTL: five, FwdC: []string{"ck1", "ck2"},
+		Ep: c11Ep{URL: c11Tpl{c11Lit(base + "/g/id")}, Method: "GET", Headers: []c11KT{{K: "X-Cred", T: c11Tpl{{K: "auth"}}}}}}
+	g12, g3 := req("alice"), req("alice")
+	g12.Cookies = []c11KV{{K: "ck1", V: "c1"}, {K: "ck2", V: "d1"}}
+	g3.Cookies = []c11KV{{K: "ck1", V: "c1ck2d1"}}
+
 	genFwd := c11Conf{Kind: "gen", ID: "ga", TTL: five, FwdC: []string{"ck1"},
 		Ep: c11Ep{URL: c11Tpl{c11Lit(base + "/g/id")}, Method: "GET", Headers: []c11KT{{K: "X-Cred", T: c11Tpl{{K: "auth"}}}}}}
 	g1, g2 := req("alice"), req("alice")
@@ -2316,6 +2381,18 @@ func (env *c11Env) corpus() []c11Case {
 		// C11-F6: forwarded header value is not in the key
 		{Protos: []c11Conf{fwd}, Insts: []c11InstSpec{{Proto: 0}}, Tok: tok, Deny: []string{}, Rep: 0,
 			Steps: []c11Step{{Inst: 0, Req: req("alice", "X-F1", "one"), Rel: "first"}, {Inst: 0, Req: req("alice", "X-F1", "two"), Rel: "diff:hdr:X-F1"}}},
+		// optional components of the forwarded digests: the second header is absent and the first value ends with its
+		// name and value (no collision as long as an absent header still contributes its name) ...
+		{Protos: []c11Conf{fwd2}, Insts: []c11InstSpec{{Proto: 0}}, Tok: tok, Deny: []string{}, Rep: -1,
+			Steps: []c11Step{{Inst: 0, Req: req("alice", "X-F1", "acme", "X-F2", "admin"), Rel: "absorb:fwdh-a"},
+				{Inst: 0, Req: req("alice", "X-F1", "acmeX-F2admin"), Rel: "absorb:fwdh-b"}}},
+		// ... and C11-F4 on the forwarded digest: both present, the second name moved across the boundary
+		{Protos: []c11Conf{fwd2}, Insts: []c11InstSpec{{Proto: 0}}, Tok: tok, Deny: []string{}, Rep: -1,
+			Steps: []c11Step{{Inst: 0, Req: req("alice", "X-F1", "aX-F2b", "X-F2", "c"), Rel: "shift:fwdh-a"},
+				{Inst: 0, Req: req("alice", "X-F1", "a", "X-F2", "bX-F2c"), Rel: "shift:fwdh-b"}}},
+		// the same absorption for the generic authenticator's forwarded cookies
+		{Protos: []c11Conf{genFwd2}, Insts: []c11InstSpec{{Proto: 0}}, Tok: tok, Deny: []string{}, Rep: -1,
+			Steps: []c11Step{{Inst: 0, Req: g12, Rel: "absorb:fwdc-a"}, {Inst: 0, Req: g3, Rel: "absorb:fwdc-b"}}},
 		// C11-F6 for the generic authenticator (forwarded cookie)
 		{Protos: []c11Conf{genFwd}, Insts: []c11InstSpec{{Proto: 0}}, Tok: tok, Deny: []string{}, Rep: 0,
 			Steps: []c11Step{{Inst: 0, Req: g1, Rel: "first"}, {Inst: 0, Req: g2, Rel: "diff:cookie"}}},
